@@ -88,16 +88,20 @@ def run(ctx):
              ctx.construct(he, extra='threshold passed'),
              'the threshold is not what is passed to the query', ctx.loc(he))
     k, lh = prog.class_attr(MODELS + '.ActionExecution', 'last_heartbeat')
-    txt = norm(lh, 400) if lh is not None else ''
-    r1.check('utc_now_sec()' in txt and 'first_heartbeat_timeout' in txt and
-             '+' in txt, MODELS + '.ActionExecution :: last_heartbeat '
+    r1.check(lh is not None and U.phas(
+        lh, '___.utc_now_sec() + datetime.timedelta('
+        'seconds=CONF.action_heartbeat.first_heartbeat_timeout)'), MODELS + '.ActionExecution :: last_heartbeat '
              'default', 'a new action does not get the first-heartbeat grace '
              'period as its initial deadline', 'mistral/db/v2/sqlalchemy/'
              'models.py')
     uh = prog.func(DB + '.update_action_execution_heartbeat')
-    r1.check("'last_heartbeat': now" in ' '.join(
-        ast.unparse(uh.node).split()) and 'utc_now_sec()' in
-        ast.unparse(uh.node), ctx.construct(uh),
+    nowv = {dotted(n.targets[0]) for n in own_nodes(uh.node)
+            if isinstance(n, ast.Assign) and
+            U.phas(n.value, '___.utc_now_sec()')}
+    r1.check(any(U.phas(uh.node, "{'last_heartbeat': %s}" % v)
+                 for v in nowv) or
+             U.phas(uh.node, "{'last_heartbeat': ___.utc_now_sec()}"),
+             ctx.construct(uh),
         'a heartbeat does not set last_heartbeat to now', ctx.loc(uh))
 
     # ---- R2 batch isolation ----------------------------------------------------
